@@ -118,6 +118,26 @@ def programs():
     out.append(("destructor leaks this to a live object", zcls % "if (home != null) { home.slot = this; home.many[1] = this; }" +
                 "function main() -> void { Keep k = new Keep(); { Z z = new Z(); z.home = k; } echo(Keep.n); echo(k.slot.v); echo(k.many[1].get()); k.slot = null; echo(Keep.n); }\n"))
     out.append(("destructor leaks this into itself", zcls % "this.other = this;" + "function main() -> void { { Z z = new Z(); } for (int i = 0; i < 40; i = i + 1) { Z t = new Z(); } echo(Keep.n); }\n"))
+    # statically dispatched calls that land on a virtual method without a body (only 'super.m()' can)
+    for ret, body_use in (("int", "return super.area() + this.s * this.s;"), ("int", "int v = this.s; super.area(); return v;"), ("void", "super.area(); echo(this.s);"),
+                          ("string", "return \"sq\" + super.area();"), ("float", "return super.area() + 1.5f;")):
+        call = "q.twice();" if ret == "void" else "echo(q.twice());"
+        twice = "area(); area();" if ret == "void" else ("return area();" if ret == "string" else "return area() + area();")
+        out.append(("super call of a bodyless virtual (%s)" % ret,
+                    "abstract class Shape { public constructor() -> Shape = default; public virtual function area() -> %s; public function twice() -> %s { %s } }\n"
+                    "class Sq extends Shape { public int s; public constructor(int s) -> Sq { super(); this.s = s; } public virtual override function area() -> %s { %s } }\n"
+                    "class Sq2 extends Sq { public constructor() -> Sq2 { super(4); } public override function area() -> %s { %s } }\n"
+                    "function main() -> void { Shape q = new Sq(3); %s Shape r = new Sq2(); %s }\n"
+                    % (ret, ret, twice, ret, body_use, ret, body_use.replace("this.s * this.s", "1"), call, call.replace("q.", "r."))))
+    # user declarations named like the built-ins, with the built-in's arity and with others: rejected by the front end or run
+    # normally - never treated as the gate with the wrong number of arguments
+    for gname in ("h", "x", "y", "z", "rx", "ry", "rz", "cx", "echo"):
+        for params, args in (("", ""), ("int a", "1"), ("int a, int b", "1, 2"), ("qubit q", "t"), ("qubit q, float a", "t, 0.5f"), ("qubit a, qubit b", "t, u")):
+            out.append(("function named %s(%s)" % (gname, params), "function %s(%s) -> int { return 26; }\nfunction main() -> void { qubit t; qubit u; int total = 0; total = total + %s(%s); echo(total); }\n"
+                        % (gname, params, gname, args)))
+        out.append(("method named " + gname, "class G { public constructor() -> G = default; public function %s() -> int { return 7; } public function use() -> int { return %s() + this.%s(); } }\n"
+                    "function main() -> void { G g = new G(); echo(g.use()); echo(g.%s()); }\n" % (gname, gname, gname, gname)))
+        out.append(("variable named " + gname, "function main() -> void { int %s = 3; echo(%s + 1); qubit t; }\n" % (gname, gname)))
     # deep recursion within the documented bound
     out.append(("recursion 200", "function down(int n) -> int { if (n <= 0) { return 0; } return 1 + down(n - 1); }\nfunction main() -> void { echo(down(200)); }\n"))
     # cx on one qubit
